@@ -102,12 +102,13 @@ CHECKS = {
    text="Coq theorems: for every well-formed state and all a, b >= 0, elapse a then b equals elapse a+b for the Periodic scheduler, the "
         "Consumable stack regeneration, the Keydown generator, LastingStack, the dynamic-interval scheduler and the mob's DOT tracker (entity "
         "models faithful to component/entity.py and common/mob.py), for all 16 stateful common component classes (the hit-limited one under a "
-        "proved reachable-state invariant) and for every job-specific class with an elapse reducer (Model/SpecAdele.v, SpecMage.v, SpecMech.v) "
-        "except AdeleOrderComponent: damage events are a permutation (same names, values, hits, modifiers), final states agree up to the dead "
+        "proved reachable-state invariant) and for every job-specific class with an elapse reducer (Model/SpecAdele.v, SpecMage.v, SpecMech.v): "
+        "damage events are a permutation (same names, values, hits, modifiers), final states agree up to the dead "
         "interval counter of an expired schedule, hence all views agree; well-formedness is an invariant of every reducer, so this holds in "
-        "every reachable state; every elapsed notification carries the elapse time. AdeleOrderComponent.elapse is refuted with two witnesses "
-        "(open known finding; a candidate repair is proved chunk independent) and its true part is proved; FullMetalBarrage's penalty defect "
-        "found by this check was repaired (f0eb2ac) and is now inside the theorem. Models compared in Coq with the real code on every run.",
+        "every reachable state; every elapsed notification carries the elapse time. Three chunking defects found by this check (the mob's DOT "
+        "ageing, FullMetalBarrage's penalty, the Order swords' tick cap and capacity) were repaired (93d0760, f0eb2ac, 4d5f5f0); the models "
+        "follow the repaired code, the classes are inside the theorem and the former witnesses are replayed as regressions. Models compared "
+        "in Coq with the real code on every run.",
    note="Trusted: as C07. Integer ticks (exactly representable times, as the property's own quantifier restricts). In addition a two-execution "
         "comparison runs on every installed component of all jobs (exploration).",
    technique="Coq proof (strong induction on the first chunk, invariants, permutation lemmas) over hand-written executable models of all component classes + Coq-evaluated correspondence + implementation-side two-execution search",
